@@ -11,18 +11,66 @@ GENERIC_NOTE = (
     "generated inputs (sampling residual); harness adapters/canonicalisers. "
 )
 
+T_GENERIC = "Lean 4 proof (structural induction / invariants / case analysis) + model-vs-implementation correspondence (differential, real code in-process) + Lean spec checker as oracle on the implementation's output"
+
 CLAIMED = {
-    "C18": dict(
-        engine="txn",
-        text="Lean theorems over Model.Txn.runToks (mirror of begin_transaction/autocommit_block/run_migrations in --sql mode) "
-        "prove the framing grammar for every number of migrations, every body, every (transactional_ddl, per_migration) setting; "
-        "the model is compared token-for-token with the real MigrationContext on 5 dialects and the Lean recogniser is run on "
-        "the implementation's own output.",
-        ref="6/C18",
+    "C04": dict(engine="online", ref="6/C04",
+        text="Lean theorems over Model.Online.runFinal (begin_transaction decision tree, _ProxyTransaction.__exit__, per-step block of run_migrations, autocommit_block) for every plan length, every failing migration and every failure position, all (transactional_ddl, transaction_per_migration, external) settings: single_txn, per_migration, recorded_exactly_completed, nontransactional, rows_at_boundary, never_names_failed. Compared with the real MigrationContext on SQLite file databases (pysqlite default and the BEGIN recipe) with exhaustive failure positions; the Lean checker judges the post-failure observation of the real code.",
+        note="backend DDL modes are a model (pysqlite legacy and SQLite BEGIN recipe validated live; PostgreSQL/MSSQL/MySQL servers not); single_txn/per_migration carry the hypothesis 'no autocommit_block before the failure'; version statements are parameters read from the real HeadMaintainer (row algebra is C03).",
+        technique=T_GENERIC),
+    "C09": dict(engine="filter", ref="6/C09",
+        text="reverse_order proved for every op tree (mutual structural induction over nested ModifyTableOps); involution and undo proved in _partial form (clean / accurate ops) next to three kernel-checked counterexamples (F11 modify_name, F13 if_exists directives, F14 deferrable=False) recorded as known findings; model compared with op.reverse()/reverse().reverse() of the real ops, SQL on five dialects, and upgrade-then-downgrade executed on SQLite.",
+        note="abstract schema semantics of ops is mine (validated by SQLite execution only); canonicalisation through to_table/to_index/to_constraint.",
+        technique=T_GENERIC),
+    "C10": dict(engine="batch", ref="6/C10",
+        text="Lean theorems over the ApplyBatchImpl mirror: rows, rowcount, no_tmp, values (every untouched column keeps its cell values), order_perm/order_respects (column ordering is a permutation and a linear extension), kept_indexes, for every table, row list and op sequence; constraint carry-over is decided by correspondence on real SQLite + the Lean checker check10. Two counterexample theorems (C10-F1, C10-F2) are known findings.",
+        note="abstract SQLite semantics (CAST table computed by the harness from live SQLite); SQLAlchemy reflection/copy; C10.schema for untouched named constraints/FK/PK is checked by correspondence and the spec checker, not proved.",
+        technique=T_GENERIC),
+    "C11": dict(engine="batch", ref="6/C11",
+        text="Lean theorems over _create's try/except/else on an abstract pysqlite connection for every plan, every fault index and both ways the enclosing scope can end: early_orig_intact, retrievable, late, superset, success_no_tmp; 'temp table gone after an early failure' only as _partial next to two kernel-checked counterexamples (C11-F1, C11-F2: known findings). Fault injection at every statement on real SQLite.",
+        note="pysqlite implicit-transaction semantics are modelled and validated live on SQLite only.",
+        technique=T_GENERIC + " + exhaustive fault injection through before_cursor_execute"),
+    "C12": dict(engine="offline", ref="6/C12",
+        text="Proved for all inputs: literal round trip (NULL, ints, arbitrary strings), statement splitting recovers exactly the emitted statements, closedness of every rendered statement, lexer round trip, version-table statements read back; same_effect proved in _partial form (decidable hypotheses evaluated by the driver on every case) with a kernel-checked counterexample for the TAB defect. The property itself is observed on the real code on every run (online vs offline script executed on SQLite).",
+        note="SQLite executor; SQLAlchemy compilation and exotic literal rendering (floats, Decimal, dates) are covered by the implementation-side oracle only; readsBack for body statements is a decidable hypothesis, not proved.",
+        technique=T_GENERIC),
+    "C13": dict(engine="alter", ref="6/C13",
+        text="exact_<dialect> for default, sqlite, postgresql, mysql, mariadb, mssql, oracle: for every request (all presence patterns, values universally quantified) with plain/None defaults and every initial column agreeing with the stated existing_* values, the emitted statements set each requested attribute and keep every other one unless restated-and-unstated; computed/identity raise theorems; schema_partial. Exhaustive presence-pattern correspondence (28 672 patterns) against real as_sql output. Three counterexamples are known findings (Oracle comment schema, PG identity, constraint after rename).",
+        note="applyStmt encodes documented vendor semantics for mysql/mssql/postgresql/oracle (no live servers); per-dialect statement parsers trusted; identifiers in the pools need no quoting (quoting is C14).",
+        technique=T_GENERIC),
+    "C14": dict(engine="ident", ref="6/C14",
+        text="Lexer round trip of delimiters and quote doubling for every dialect and every name (delimit_roundtrip, literal_roundtrip), needs_quotes, and per-construct token-shape theorems for 12 construct families x dialects with names universally quantified; F6/F7 (and PERCENT/TAB outside the listed classes) as counterexample + partial theorems and known findings. Real compiled strings compared exactly with the model on 6 dialects; the Lean lexer-based spec judges the implementation's strings.",
+        note="the lexer/shapes describe the databases' grammars; SQLAlchemy-rendered type/default texts opaque; reserved words read from the live dialect; MSSQL sp_rename(table)/_ExecDrop* and MySQL DROP CONSTRAINT are modelled and compared but have no positive theorem; the _exec strip/TAB step is covered by correspondence only.",
+        technique=T_GENERIC),
+    "C18": dict(engine="txn", ref="6/C18",
+        text="Lean theorems over Model.Txn.runToks (mirror of begin_transaction/autocommit_block/run_migrations in --sql mode) prove the framing grammar for every number of migrations, every body, every (transactional_ddl, per_migration) setting; the model is compared token-for-token with the real MigrationContext on 5 dialects and the Lean recogniser is run on the implementation's own output.",
         note="version-statement counts and createVT/dropVT flags are parameters read from the implementation run; tokeniser of the output buffer is trusted.",
-        technique="Lean 4 proof by structural induction over migrations/segments + model-vs-implementation correspondence (differential) + Lean spec recogniser as oracle",
-    ),
+        technique=T_GENERIC),
+    "C19": dict(engine="files", ref="6/C19",
+        text="For every abstract filesystem, every list of version-location trees and every sourceless/recursive setting: loaded_once, loaded_sound, ids_right, dup_id (iff), error_loud, map_keys, split; completeness (every expected file is loaded) in _partial form with a kernel-checked counterexample (__init__-prefixed file names: known finding C19-F13) and in full for the repaired look-ahead. Real ScriptDirectory.from_config on materialised scratch trees compared with the model.",
+        note="os.walk/realpath/importlib are the platform's; a file is judged by its realpath name; RootsOk (no version location itself named __pycache__) assumed.",
+        technique=T_GENERIC),
+    "C20": dict(engine="filter", ref="6/C20",
+        text="Lean theorems over Model.Filter.diffF (compare.py skeleton with every run_name_filters/run_object_filters call site) for all schema pairs and all predicates: object (no leak), name (no leak), conservative_object (list equality), conservative_name (when no reflected name is rejected). Compared with real produce_migrations on SQLite under real callables; Lean checkers on the implementation's ops.",
+        note="'targets' reading fixed in DESIGN 6/C20; doubled_constraints path and comments not modelled; per-table name-conservativeness is a checker evaluated on implementation output, not a theorem.",
+        technique=T_GENERIC),
 }
+
+ENGINES = [
+    ("txn", "lean/Model/Txn", ["C18"], "offline transaction framing: model, spec recogniser, proofs"),
+    ("online", "lean/Model/Online", ["C04"], "online transactions under failure: model generic in state, proofs"),
+    ("alter", "lean/Model/Alter", ["C13"], "alter_column per dialect: model, vendor semantics, proofs"),
+    ("ident", "lean/Model/Ident", ["C14"], "identifier quoting + Alembic's own DDL constructs + lexer spec"),
+    ("files", "lean/Model/Files", ["C19"], "revision file discovery over an abstract filesystem"),
+    ("filter", "lean/Model/Filter + lean/Model/Reverse", ["C20", "C09"], "autogenerate filters; op reversal"),
+    ("batch", "lean/Model/Batch", ["C10", "C11"], "batch move-and-copy state machine, SQLite semantics"),
+    ("offline", "lean/Model/Offline", ["C12"], "offline script vs online run on an abstract SQLite"),
+    ("rev", "lean/Model/Rev", ["C01", "C02", "C03", "C05", "C15", "C16", "C17"], "revision DAG, plans, version-table bookkeeping"),
+    ("diff", "lean/Model/Diff", ["C06", "C07"], "autogenerate diff on SQLite"),
+    ("render", "lean/Model/Render + lean/Model/Py", ["C08"], "rendering of ops to Python source"),
+]
+DRIVERS = {"txn": "drv_txn", "online": "drv_online", "alter": "drv_alter", "ident": "drv_ident", "files": "drv_files",
+           "filter": "drv_filter", "batch": "drv_batch", "offline": "drv_offline", "rev": "drv_rev", "diff": "drv_diff", "render": "drv_render"}
 
 NOT_YET = {}
 
@@ -49,7 +97,7 @@ def main():
             na.append({"property_id": pid, "reason": NOT_YET.get(pid, "machinery for this property is not built yet (work in progress; design in DESIGN.md section 6); not claimed until its Lean theorems and correspondence check exist")})
     man = {
         "version": 1,
-        "setup_cmd": "cd lean && lake build",
+        "setup_cmd": "cd lean && lake build " + " ".join(sorted(set(["Props.%s" % c["property_id"] for c in checks] + [DRIVERS[CLAIMED[c["property_id"]]["engine"]] for c in checks]))),
         "hooks": {
             "guard": "ALEMBIC_VERIF",
             "enable": "no source hooks: checks import alembic from /repo's working tree (development install in /venv) and use public APIs / in-process wrapping",
@@ -57,9 +105,7 @@ def main():
             "source_commits": [],
             "add_only": True,
         },
-        "engines": [
-            {"name": "txn", "path": "lean/Model/Txn", "serves_properties": ["C18", "C04"], "kind_free_text": "Lean model of transaction framing + proofs"},
-        ],
+        "engines": [{"name": n, "path": p, "serves_properties": sp, "kind_free_text": k} for n, p, sp, k in ENGINES],
         "checks": checks,
         "not_applicable": na,
         "notes": "Single entry point ./check Cxx [--tier quick|thorough] [--replay path]; Lean project in lean/ (lake build), harness in harness/. See DESIGN.md.",
